@@ -92,6 +92,14 @@ def run(ctx):
                 ok = True
                 bad = ""
                 for (_pc, w) in expand_merges(model.interp, e["value"], ()):
+                    # which notices are configured on this path
+                    on = set()
+                    for tt, vv in pc_truth(tuple(e["pc"]) + tuple(_pc)).items():
+                        inner, pol = tt, vv
+                        if inner[0] == "isnone":
+                            inner, pol = inner[1], not vv
+                        if inner[0] == "sub" and inner[2][0] == "const" and pol is True:
+                            on.add(inner[2][1])
                     if w[0] == "coll":
                         items = [(a["elem"] if a.get("key") is None else (a["key"], a["elem"]))
                                  for a in model.interp.coll_adds.get(w[1], [])]
@@ -102,6 +110,13 @@ def run(ctx):
                         ok = False
                         bad = "the welcome is %s" % show(w)[:50]
                         break
+                    have = set((k[1] if isinstance(k, tuple) else k) for k, v in items)
+                    for wk, opt in (("motd", "motd"), ("current_cli_version",
+                                    "advertise-version"), ("error", "signal-error")):
+                        if opt in on and wk not in have:
+                            ok = False
+                            bad = "with --%s configured the welcome has no `%s` entry " \
+                                "(it carries %s)" % (opt, wk, sorted(have))
                     for k, v in items:
                         kk = k[1] if isinstance(k, tuple) else k
                         want = {"motd": "motd", "current_cli_version": "advertise-version",
